@@ -1040,3 +1040,14 @@ package vegeta
 //@   requires [in-range] 0 <= i && i < len(rs) && 0 <= j && j < len(rs)
 //@   modifies rs[*]
 //@   ensures [exchanges-two-results] rs[i].Seq == old(rs[j].Seq) && rs[j].Seq == old(rs[i].Seq) && rs[i].Timestamp == old(rs[j].Timestamp) && rs[j].Timestamp == old(rs[i].Timestamp)
+
+// ConnectTo: the mapping wraps the dial function the transport had before (the DNS cache, a unix
+// socket, an earlier mapping), it does not replace it by the attacker's bare dialer.
+//@ func ConnectTo$1
+//@   property C18
+//@   pragma unknowncalls havoc
+//@   pragma obligations contract
+//@   pragma frame off
+//@   before store tr.DialContext: assert [connect-to-wraps-the-dial-function-installed-before] tr.DialContext == nil || ref(dial) == ref(tr.DialContext)
+//@   loop 1
+//@     invariant tr != nil
